@@ -171,7 +171,7 @@ class MILSTD1553DataPacket(object):
         if not isinstance(other, MILSTD1553DataPacket):
             return False
 
-        _match_att = ["messages", "msgcount"]
+        _match_att = ["messages", "msgcount", "ttb"]
 
         for attr in _match_att:
             if getattr(self, attr) != getattr(other, attr):
